@@ -57,6 +57,12 @@ let () =
           let a = bytes_of_hex (String.sub rest 0 k) and b = bytes_of_hex (String.sub rest (k + 1) (String.length rest - k - 1)) in
           print_endline (if Model.m_merge_check a b then "1" else "0") end
         else
+        if fn = "stdtexts" || fn = "msotexts" then begin
+          let r = if fn = "stdtexts" then Model.m_std_texts arg else Model.m_mso_texts arg in
+          match r with
+          | Some l -> print_endline ("T" ^ String.concat "," (List.map hex_of_bytes l))
+          | None -> print_endline "NONE" end
+        else
         if fn = "lex" then print_endline (String.concat ";" (List.map ser_tok (Model.m_lex arg)))
         else if fn = "check" then
           print_endline ((if Model.m_check_std arg then "1" else "0") ^ (if Model.m_check_mso arg then "1" else "0") ^
